@@ -115,6 +115,11 @@ func (s *slaveConnection) readBinlogEvent() (replication.BinlogEvent, *Error) {
 	case mysql.PacketEOF:
 		return nil, newError(errStreamEOF).msgf("readBinlogEvent reach end")
 	case mysql.PacketERR:
+		// the driver decodes an error packet without looking at its length: it
+		// needs the error number, one more byte and, behind a '#', the SQL state
+		if len(buf) < 4 || (buf[3] == '#' && len(buf) < 9) {
+			return nil, newError(errMalformedErrorPacket).msgf("fetch error packet: % x", buf)
+		}
 		return nil, newError(s.dc.HandleErrorPacket(buf)).msgf("fetch error packet")
 	default:
 	}
